@@ -10,7 +10,6 @@ NA = {
  "C32": "approximate percentiles: numeric merge; monotonicity is a value property",
  "C41": "divisions truthfulness: compares index values with divisions (data-dependent)",
  "C42": "dataframe meta vs computed: needs pandas execution",
- "C44": "repartition: row order and counts are data-dependent",
  "C45": "division planning: bisect/drift arithmetic over the data",
  "C47": "file round trips: byte-level parsing, pandas and pyarrow behaviour",
 }
